@@ -3,6 +3,7 @@ outcomes (raised exceptions) are pushed on self.abrupt."""
 from __future__ import annotations
 
 import ast
+import re
 import z3
 
 from .state import Val, py, Unsupported, Exc, State, fresh_name
@@ -12,6 +13,10 @@ from .types import INT, BOOL, STR, NONE, PY, TOpt, TSet, TDict, TSeq, TTuple
 class Closure:
     def __init__(self, node, env, module, qualname):
         self.node, self.env, self.module, self.qualname = node, env, module, qualname
+
+
+class NoOutcome(Unsupported):
+    pass
 
 
 class ExprMixin:
@@ -29,11 +34,33 @@ class ExprMixin:
             return True
         if z3.is_false(last):
             return False
+        if any(self._has_quant(c) for c in st.pc):
+            return True   # no reliable timeout with quantifiers/lambdas: keep the path (its VCs are then vacuous if infeasible)
         self.stats["feasibility_queries"] += 1
         s = z3.Solver()
         s.set("timeout", self.feas_timeout_ms)
         s.add(*st.pc)
         return s.check() != z3.unsat
+
+    def _has_quant(self, e):
+        key = e.get_id()
+        hit = self._quant_cache.get(key)
+        if hit is not None:
+            return hit
+        seen, stack, res = set(), [e], False
+        while stack:
+            x = stack.pop()
+            i = x.get_id()
+            if i in seen:
+                continue
+            seen.add(i)
+            if z3.is_quantifier(x):
+                res = True
+                break
+            if z3.is_app(x):
+                stack.extend(x.children())
+        self._quant_cache[key] = res
+        return res
 
     def branch(self, st: State, cond, tag="if"):
         """-> (st_true or None, st_false or None)"""
@@ -79,7 +106,7 @@ class ExprMixin:
             del self.abrupt[mark:]
             raise Unsupported(f"expression may raise in a pure context: {ast.unparse(node)[:80]}")
         if not outs:
-            raise Unsupported("pure expression has no outcome")
+            raise NoOutcome("pure expression has no outcome (infeasible context)")
         return self.merge(outs)
 
     # ---- dispatcher -------------------------------------------------------------
@@ -181,10 +208,17 @@ class ExprMixin:
                 if isinstance(part, ast.Constant):
                     nxt.append((s, acc + [z3.StringVal(part.value)]))
                 else:
-                    if part.format_spec is not None or part.conversion not in (-1, 115):
-                        raise Unsupported("f-string format spec")
+                    if part.conversion not in (-1, 115):
+                        raise Unsupported("f-string conversion")
                     for s2, v in self.ev(part.value, s):
-                        nxt.append((s2, acc + [self.to_str(v).t]))
+                        if part.format_spec is not None:
+                            spec = ast.unparse(part.format_spec)
+                            if v.is_py:
+                                raise Unsupported("format spec on python object")
+                            f = self.uf("fmt_" + re.sub(r"\W", "_", spec) + "_" + self.reg._sname(v.ty), [self.reg.sort(v.ty)], z3.StringSort())
+                            nxt.append((s2, acc + [f(v.t)]))
+                        else:
+                            nxt.append((s2, acc + [self.to_str(v).t]))
             outs = nxt
         res = []
         for s, acc in outs:
@@ -219,7 +253,52 @@ class ExprMixin:
                 raise Unsupported("unary op")
         return outs
 
+    def _boolop_fast(self, n, st):
+        """and/or without forking when every operand evaluates purely (one outcome, no raise, no store change)
+        under the assumption that the previous operands did not short-circuit."""
+        is_and = isinstance(n.op, ast.And)
+        mark, vmark = len(self.abrupt), len(self.vcs)
+        cur = st.copy()
+        vals = []
+        for node in n.values:
+            try:
+                outs = self.ev(node, cur.copy())
+            except NoOutcome:
+                outs = []
+            if len(self.abrupt) > mark or len(outs) != 1 or len(outs[0][0].pc) != len(cur.pc) \
+                    or not self._same_store(outs[0][0], st) or len(self.vcs) != vmark:
+                import os
+                if os.environ.get("PYVC_DEBUG"):
+                    print("boolop slow path:", ast.unparse(n)[:80], "abrupt", len(self.abrupt) - mark, "outs", len(outs),
+                          "pc", [len(o[0].pc) for o in outs], len(cur.pc), "store", [self._same_store(o[0], st) for o in outs])
+                del self.abrupt[mark:]
+                del self.vcs[vmark:]
+                return None
+            v = outs[0][1]
+            vals.append(v)
+            t = self.truth(v)
+            cur = cur.copy()
+            cur.pc.append(t if is_and else z3.Not(t))
+        if all(v.ty.kind == "bool" and not v.is_py for v in vals):
+            ts = [v.t for v in vals]
+            return [(st, Val(BOOL, z3.And(*ts) if is_and else z3.Or(*ts)))]
+        try:
+            res = vals[-1]
+            for v in reversed(vals[:-1]):
+                t = self.truth(v)
+                res = self.ite(t, res, v) if is_and else self.ite(t, v, res)
+        except Unsupported:
+            if not self.spec_mode:
+                return None
+            # operands of different types in a specification: only the truth value is meaningful
+            ts = [self.truth(v) for v in vals]
+            res = Val(BOOL, z3.And(*ts) if is_and else z3.Or(*ts))
+        return [(st, res)]
+
     def ev_BoolOp(self, n, st):
+        fast = self._boolop_fast(n, st)
+        if fast is not None:
+            return fast
         is_and = isinstance(n.op, ast.And)
         outs = []
         work = [(st, None, 0)]
@@ -249,15 +328,28 @@ class ExprMixin:
         return outs
 
     def _same_store(self, a: State, b: State):
-        if a.env.keys() != b.env.keys() or a.heap.keys() != b.heap.keys():
+        if a.env.keys() != b.env.keys():
             return False
         for k in a.env:
             if a.env[k] is not b.env[k]:
                 return False
-        for k in a.heap:
-            if a.heap[k] is not b.heap[k]:
+        for k in a.heap.keys() & b.heap.keys():
+            if a.heap[k] is not b.heap[k] and not a.heap[k].eq(b.heap[k]):
                 return False
-        return a.ghost == b.ghost
+        for k in a.heap.keys() ^ b.heap.keys():
+            arr = a.heap.get(k) if k in a.heap else b.heap.get(k)
+            if not str(arr.decl().name()).startswith("heap0_"):   # lazily materialised entry array is not a write
+                return False
+        for k in a.ghost.keys() | b.ghost.keys():
+            x, y = a.ghost.get(k), b.ghost.get(k)
+            if x is y:
+                continue
+            if isinstance(x, Val) and isinstance(y, Val) and x.is_py and y.is_py and (x.t is y.t):
+                continue
+            if isinstance(x, dict) and isinstance(y, dict) and x == y:
+                continue
+            return False
+        return True
 
     def ev_IfExp(self, n, st):
         outs = []
@@ -541,12 +633,23 @@ class ExprMixin:
         if base.is_py and isinstance(base.t, (tuple, list)):
             raise Unsupported("symbolic index into python sequence")
         k = base.ty.kind
+        if k in ("abs", "ref", "data") and base.ty.name in self.subscript_models:
+            return self.subscript_models[base.ty.name](self, s, base, idx, node)
         if k == "tuple":
             if not idx.is_py and z3.is_int_value(idx.t):
                 idx = py(idx.t.as_long())
             if not idx.is_py:
                 raise Unsupported("symbolic tuple index")
             return [(s, self.tuple_get(base, idx.t))]
+        if k in ("str", "seq") and self.spec_mode:
+            i = z3.IntVal(idx.t) if idx.is_py else idx.t
+            n = z3.Length(base.t)
+            pos = i if not (z3.is_int_value(i) and i.as_long() < 0) else n + i
+            return [(s, self.seq_nth(base, pos))]   # total in specifications
+        if k == "dict" and self.spec_mode:
+            return [(s, self.dict_get(base, idx))]
+        if k == "opt" and self.spec_mode:
+            return self.subscript(s, self.unwrap(base), idx, node)
         if k in ("str", "seq"):
             i = z3.IntVal(idx.t) if idx.is_py else idx.t
             n = z3.Length(base.t)
